@@ -30,6 +30,14 @@ type Obligation struct {
 	ExpectSat bool   // vacuity checks: the query (pc) must be satisfiable
 	Inputs    []Term // terms whose model values identify a counterexample
 	Src       string
+	// known findings: the unrestricted clause of an open finding is a canary (expected to fail)
+	Canary   bool
+	CanaryOf string
+	// replay support
+	Ctx      *runCtx
+	Results  []Value
+	PosTerm  *Term
+	RetState *State
 	// filled by the solver stage
 	Res *SolveResult
 }
@@ -43,33 +51,37 @@ func (o *Obligation) Name() string {
 }
 
 type Machine struct {
-	prog         *ssa.Program
-	pkg          *ssa.Package
-	fset         *token.FileSet
-	contracts    *ContractFile
-	prelude      *Prelude
-	syms         *SymTab
-	facts        map[string][]Term // symbol -> facts about it (included when the symbol occurs)
-	obligs       []*Obligation
-	objN         int
-	strLits      map[string]Term
-	typeConst    map[string]Term
-	globals      map[*ssa.Global]*Obj
-	globalMem    map[cellKey]Value
-	loopInfo     map[*ssa.Function]*LoopInfo
-	cur          *runCtx
-	maxPaths     int
-	inlineMax    int
-	errs         []string
-	warned       map[string]bool
-	ifacePayload map[string]Value
-	provenance   map[*Obj]Term
-	sliceTok     map[*Obj]Term
-	runeStr      map[string]runeWindow
-	mapWrites    []mapWrite
-	chanCaps     map[string]Term
-	queryOf      map[*Obligation]string
-	divCache     map[string][2]Term
+	prog          *ssa.Program
+	pkg           *ssa.Package
+	fset          *token.FileSet
+	contracts     *ContractFile
+	prelude       *Prelude
+	syms          *SymTab
+	facts         map[string][]Term // symbol -> facts about it (included when the symbol occurs)
+	obligs        []*Obligation
+	objN          int
+	strLits       map[string]Term
+	typeConst     map[string]Term
+	globals       map[*ssa.Global]*Obj
+	globalMem     map[cellKey]Value
+	loopInfo      map[*ssa.Function]*LoopInfo
+	cur           *runCtx
+	maxPaths      int
+	inlineMax     int
+	errs          []string
+	warned        map[string]bool
+	ifacePayload  map[string]Value
+	provenance    map[*Obj]Term
+	sliceTok      map[*Obj]Term
+	runeStr       map[string]runeWindow
+	mapWrites     []mapWrite
+	chanCaps      map[string]Term
+	queryOf       map[*Obligation]string
+	divCache      map[string][2]Term
+	knownRegion   func(fn, kind, label string) (string, bool)
+	regionEnv     *Env
+	inCanary      bool
+	usedContracts map[string]bool
 	// which properties / kinds to emit safety obligations for
 	safetyProps []string
 }
@@ -88,6 +100,7 @@ type runCtx struct {
 	mode       string // "contract" or "sweep"
 	noSafety   bool
 	allocCheck bool
+	curResults []Value
 }
 
 func newMachine(prog *ssa.Program, pkg *ssa.Package, cf *ContractFile, pre *Prelude) *Machine {
@@ -609,6 +622,40 @@ func (m *Machine) emit(c *Config, kind, label string, props []string, goal Term,
 	if c.st.dead {
 		return
 	}
+	if m.knownRegion != nil && !m.inCanary {
+		if region, ok := m.knownRegion(m.cur.key, kind, label); ok {
+			// canary: the unrestricted clause (expected to keep failing)
+			m.inCanary = true
+			n0 := len(m.obligs)
+			m.emit(c, kind, label, props, goal, site, src)
+			m.inCanary = false
+			for _, o := range m.obligs[n0:] {
+				o.Canary = true
+				o.CanaryOf = m.cur.key + "/" + kind + ":" + label
+				if o.Res != nil && o.Res.Backend == "constant-folding" {
+					o.Res = &SolveResult{Status: "unsat", Backend: "constant-folding"}
+				}
+			}
+			// residual: the clause outside the recorded region
+			rt := TTrue
+			if region != "true" {
+				rt = TFalse
+				if m.regionEnv != nil {
+					if e, err := parseExpr(region); err == nil {
+						if t, err := m.evalBool(m.regionEnv, e); err == nil {
+							rt = t
+						} else {
+							m.errs = append(m.errs, fmt.Sprintf("known-finding region %q: %v", region, err))
+						}
+					} else {
+						m.errs = append(m.errs, fmt.Sprintf("known-finding region %q: %v", region, err))
+					}
+				}
+			}
+			goal = Or(rt, goal)
+			src = src + "   [residual outside known-finding region: " + region + "]"
+		}
+	}
 	if goal.IsConst() && goal.C.Sign() != 0 {
 		// trivially true after constant folding: still counted, discharged by the engine's folding
 		// (kept out of the solver to bound the number of processes)
@@ -617,9 +664,14 @@ func (m *Machine) emit(c *Config, kind, label string, props []string, goal Term,
 			Res: &SolveResult{Status: "unsat", Backend: "constant-folding"}})
 		return
 	}
-	m.obligs = append(m.obligs, &Obligation{Fn: m.cur.key, Kind: kind, Label: label, Props: props,
+	ob := &Obligation{Fn: m.cur.key, Kind: kind, Label: label, Props: props,
 		PC: append([]Term(nil), c.st.pc...), Goal: goal, Abstract: c.st.abstract,
-		Assumed: append([]string(nil), c.st.assumed...), Path: m.cur.paths, Site: site, Inputs: m.cur.inputs, Src: src})
+		Assumed: append([]string(nil), c.st.assumed...), Path: m.cur.paths, Site: site, Inputs: m.cur.inputs, Src: src,
+		Ctx: m.cur, Results: m.cur.curResults, RetState: c.st}
+	if pv, ok := c.st.ghost["@pos"].(Term); ok {
+		ob.PosTerm = &pv
+	}
+	m.obligs = append(m.obligs, ob)
 }
 
 func (m *Machine) safety(c *Config, kind string, goal Term, pos token.Pos) {
